@@ -16,6 +16,11 @@ import (
 // The parser and lexer objects are private mutable state of one Parse call ("owns").
 
 // specSizeOK: a size declaration [lower..upper] (upper == -1: no upper bound) admits size.
+// specIsWordByte: an ASCII letter, digit or underscore (what may not follow a number token directly).
+func specIsWordByte(b int) bool {
+	return b == '_' || ('0' <= b && b <= '9') || ('a' <= b && b <= 'z') || ('A' <= b && b <= 'Z')
+}
+
 func specSizeOK(size int, lower int, upper int) bool {
 	return lower <= size && (upper == -1 || size <= upper)
 }
@@ -254,7 +259,7 @@ func specSizeOK(size int, lower int, upper int) bool {
 //@   ensures true
 
 //@ func Parse
-//@   property C06 C19 C11 C04
+//@   property C06 C19 C11 C04 C08
 //@   owns sml.parser, sml.lexer, sml.token, sml.parseError, map[string]bool
 //@   ensures len(errors) > 0 ==> len(messages) == 0
 //@   ensures fresh(errors) && fresh(warnings)
@@ -346,6 +351,7 @@ func specSizeOK(size int, lower int, upper int) bool {
 //@   ensures sent(l.tokens) == old(sent(l.tokens)) + 1
 //@   ensures tok.typ == tokenTypeNumber || tok.typ == tokenTypeError
 //@   ensures tok.typ == tokenTypeNumber ==> lexOK(l) && l.start == l.pos && tok.val == substr(l.input, old(l.pos), l.pos)
+//@   ensures tok.typ == tokenTypeNumber && l.pos < len(l.input) ==> !specIsWordByte(l.input[l.pos])
 
 //@ func lexDataItemSize
 //@   property C15 C06
